@@ -493,7 +493,9 @@ def e2e_age(ctx, sb):
             spec_groups, days, ok = [], set(), True
             for gi, g in enumerate(gs):
                 d = (g[0] - BASE_DAY) // 86400 if g else max(days | {0}) + 1 + gi
-                if d in days or d < 0 or (g and any((t - BASE_DAY) // 86400 < d for t in g)):
+                if zone:
+                    d = 1000 + gi       # names come from the zone's local time below; only distinctness matters here
+                if d in days or d < 0 or (g and not zone and any((t - BASE_DAY) // 86400 < d for t in g)):
                     ok = False
                     break
                 days.add(d)
@@ -501,8 +503,6 @@ def e2e_age(ctx, sb):
                                     [{"name": local_name(t, "%Y.%m.%d-%H:%M:%S") if zone else time.strftime("%Y.%m.%d-%H:%M:%S", time.gmtime(t)),
                                                 "manifest": [{"unique": True, "hash": xh, "fp": [1, 2, 3], "size": 1, "path_hex": b"/p".hex()}],
                                                 "entries": [{"type": "file", "path_hex": b"p".hex(), "data_hex": b"x".hex()}]} for t in g]))
-            if zone:
-                ctx.count("e2e-age.zone." + zone)
             if not ok or [x for x, _ in spec_groups] != sorted(x for x, _ in spec_groups) or any(g != sorted(g) for g in gs) or not any(gs):
                 continue
             st = sb.path("e2e-st%d" % n)
@@ -527,6 +527,8 @@ def e2e_age(ctx, sb):
             cloud_part = parts[-1] if len(parts) > 3 else ""
             ctx.evaluations += 1
             ctx.count("e2e-age.%s" % {0: "no-threshold", 1: "fresh", 2: "no-backups", 3: "future", 4: "too-old"}[code])
+            if zone:
+                ctx.count("e2e-age.zone." + zone)
             ctx.nontrivial.add(("e2e-age", str(gs), thr))
             newest = max((t for g in gs for t in g), default=None)
             want = newest is not None and thr is not None and newest <= NOW and NOW - newest >= thr
